@@ -137,11 +137,23 @@ def search_from(draw, m: SidModel, t: str, fields: Dict[str, str], allow_gt: boo
         labels.append("alias")
     # '**'
     r = draw(st.integers(0, 99))
+    covered = []
     if r < 30 and len(segs) >= 1:
         i = draw(st.integers(1, len(segs)))          # span start (never the very first segment: root must exist)
         j = draw(st.integers(i, len(segs)))          # span end (i == j: zero-length, '**' inserted)
+        covered = list(keys[i:j])
         segs = segs[:i] + ["**"] + segs[j:]
         labels.append("dstar:" + ("end" if j >= len(keys) else "middle") + (":zero" if i == j else ""))
+    forced_filter = None
+    free_idx = [i for i, k in enumerate(keys) if m.specs[(t, k)].free and i >= 1]
+    if free_idx and allow_filters and draw(st.integers(0, 99)) < 6:
+        # '**' standing exactly where a free-valued level starts, with a filter on that level: the filter must
+        # constrain the expansion (a Sid typed from the raw string would take '**' as the free value and overwrite it)
+        i = draw(st.sampled_from(free_idx))
+        j = draw(st.integers(i + 1, len(keys)))
+        segs = [fields[k] for k in keys[:i]] + ["**"] + [fields[k] for k in keys[j:]]
+        forced_filter = f"{keys[i]}={_qsafe(draw(st.one_of(st.just(fields[keys[i]]), concrete_value(m.specs[(t, keys[i])]))))}"
+        labels.append("dstar-over-free-key-with-filter")
     malformed = False
     if allow_malformed and draw(st.integers(0, 99)) < 6:
         malformed = True
@@ -169,8 +181,16 @@ def search_from(draw, m: SidModel, t: str, fields: Dict[str, str], allow_gt: boo
         filters = []
         base = m.basetype(t)
         for _ in range(nf):
-            kind = draw(st.sampled_from(["existing", "existing", "existing-star", "existing-bad", "deeper", "foreign", "unknown", "alias", "comma"]))
+            kind = draw(st.sampled_from(["existing", "existing", "existing-star", "existing-bad", "deeper", "foreign", "unknown", "alias", "comma"]
+                                        + (["covered", "covered", "covered"] if covered else [])))
             opt = draw(st.sampled_from(["", "", "~"]))
+            if kind == "covered":
+                # a key that lies under the '**' span: the filter must constrain the expansion, not replace the '**'
+                k = draw(st.sampled_from(covered))
+                v = draw(st.one_of(st.just(fields[k]), concrete_value(m.specs[(t, k)])))
+                filters.append(f"{k}={opt}{_qsafe(v)}")
+                labels.append("filter:covered-by-dstar")
+                continue
             if kind in ("existing", "existing-star", "existing-bad", "comma"):
                 k = draw(st.sampled_from(keys))
                 spec = m.specs[(t, k)]
@@ -206,6 +226,8 @@ def search_from(draw, m: SidModel, t: str, fields: Dict[str, str], allow_gt: boo
                 v = ",".join("*" if x == ">" else x for x in v.split(","))
             filters.append(f"{k}={opt}{_qsafe(v) if ',' not in v else ','.join(_qsafe(x) for x in v.split(','))}")
             labels.append("filter:" + kind + ("/opt" if opt else ""))
+        if forced_filter:
+            filters.append(forced_filter)
         if filters:
             s = s + "?" + "&".join(filters)
     return {"s": s, "labels": labels}
